@@ -95,11 +95,16 @@ func TestTunnelSchedules(t *testing.T) {
 			}
 		}
 		if bubble {
-			msg := func() (msg any) {
-				defer func() { msg = recover() }()
+			// (in its own goroutine: when the race detector reports inside the bubble, synctest.Test ends the calling
+			// goroutine through t.FailNow - that must end neither the driver nor the remaining runs)
+			res := make(chan any, 1)
+			go func() {
+				var m any
+				defer func() { res <- m }()
+				defer func() { m = recover() }()
 				synctest.Test(t, func(t *testing.T) { runOne(rec, r, true) })
-				return nil
 			}()
+			msg := <-res
 			if msg != nil {
 				// goroutines of this run are blocked forever (or the run panicked)
 				rec.Simple("BubbleAbort", -1, -1, -1, fmt.Sprint(msg))
